@@ -37,6 +37,10 @@ RichShapes(name) ==
     \cup { [d EXCEPT !.k = "struct", !.pub = p, !.opq = TRUE] : p \in BOOLEAN }
     \cup { [d EXCEPT !.k = "word", !.pub = p, !.size = sm[1], !.mem = sm[2]]
         : p \in BOOLEAN, sm \in { <<4, <<<<"m", I32>>>>>>, <<16, <<<<"m", <<"u64">>>>, <<"n", <<"u64">>>>>>>> } }
+    \* values whose text needs escaping in a dump; a named array length
+    \cup { [d EXCEPT !.k = "const", !.pub = p, !.ty = tv[1], !.val = tv[2]]
+        : p \in BOOLEAN, tv \in { <<<<"[]", "u8">>, <<"\"a<b&c>d\"">>>>, <<<<"[]", "u8">>, <<"\"q\\\"q\"">>>>, <<<<"char8">>, <<"'<'">>>>,
+                                  <<<<"char8">>, <<"'\\''">>>>, <<<<"char8">>, <<"'\"'">>>>, <<<<"[N]", "i32">>, <<"+", "'&'", "x">>>> } }
     \* "Structures and constants can also be declared `extern`" (docs/features.md): the flag is part of the declaration
     \cup { [d EXCEPT !.k = "const", !.pub = p, !.ext = TRUE, !.ty = I32, !.val = <<"1">>] : p \in BOOLEAN }
     \cup { [d EXCEPT !.k = "struct", !.pub = p, !.ext = TRUE, !.mem = <<<<"m", I32>>>>] : p \in BOOLEAN }
